@@ -31,6 +31,7 @@ type Engine struct {
 	HarnessPkg map[string]string
 	Tier       int // 0 quick, 1 thorough
 	PreemptBound int // -1 = unbounded
+	KnownIDs   map[string]bool // obligations recorded as known findings for the property being checked
 }
 
 // harnessDirs maps /verif/harness/<dir> to the repo-relative package directory.
